@@ -325,6 +325,60 @@ pub fn search(seed: u64, n: u64) {
         let (edges, refs) = edges_of(&g);
         check_line(&mut stats, &g, &edges, &refs, line, "plain_path", "shallow_arch_cap", &detail);
     }
+    // shapes FAR FROM THE ORIGIN (translated by 1e5 .. 1e7) cut by lines given as two close points (0.01 .. 1 apart): the line equation
+    // must not lose the line to cancellation (own stream; from seeded change C14-m9, an algebraically identical rewrite of its constant term)
+    let mut rng_f = Rng(seed ^ 0xFA2C14);
+    for k in 0..(6 + n / 40) {
+        let s0 = rand_shape(&mut rng_f);
+        let t = [1e5, 1e6, 1e7][(k % 3) as usize];
+        let off = Coord2(t * rng_f.r(0.5, 1.0), t * rng_f.r(0.5, 1.0) * if k % 2 == 0 { 1.0 } else { -1.0 });
+        let p: P = (s0.path.0 + off, s0.path.1.iter().map(|(a, b, c)| (*a + off, *b + off, *c + off)).collect());
+        let g = GraphPath::from_path(&p, PathLabel(0));
+        let detail_owner = format!("graph=from_path({:?})", p);
+        let detail = || detail_owner.clone();
+        let (edges, refs) = edges_of(&g);
+        if edges.is_empty() { continue; }
+        stats.count("graph.far_from_origin");
+        stats.case(&format!("far_from_origin {}", detail()), true);
+        for _ in 0..12 {
+            let m = off + Coord2(rng_f.r(20.0, 80.0), rng_f.r(20.0, 80.0));
+            let a = rng_f.r(0.0, TAU);
+            let d = Coord2(a.cos(), a.sin()) * 10f64.powf(rng_f.r(-2.0, 0.0));
+            check_line(&mut stats, &g, &edges, &refs, (m, m + d), "plain_path", "far_from_origin_short_ray", &detail);
+        }
+    }
+    // graphs whose vertices were MOVED after their edges had been looked at: collided (or merged, ray cast, then welded with
+    // `combine_overlapping_points`) with a coarse accuracy of 0.3 .. 0.8, so that vertices move by tenths of a unit - whatever a graph
+    // caches per edge (bounding boxes) must not be used stale by the ray casting (own stream; from seeded change C14-m10)
+    let mut rng_w = Rng(seed ^ 0x3E1DC14);
+    for k in 0..(6 + n / 40) {
+        let (sa, sb) = (rand_shape(&mut rng_w), rand_shape(&mut rng_w));
+        let acc = rng_w.r(0.3, 0.8);
+        let (pa, pb) = (sa.path.clone(), sb.path.clone());
+        let weld = k % 2 == 0;
+        let lines: Vec<(Coord2, Coord2)> = (0..8).map(|_| (Coord2(rng_w.r(0.0, 100.0), rng_w.r(0.0, 100.0)), Coord2(rng_w.r(0.0, 100.0), rng_w.r(0.0, 100.0)))).collect();
+        let built = guarded(HANG_SECS, move || {
+            let ga = GraphPath::from_path(&pa, PathLabel(0));
+            let gb = GraphPath::from_path(&pb, PathLabel(1));
+            if weld {
+                let mut g = ga.merge(gb);
+                for l in &lines { let _ = g.ray_collisions(l); }
+                g.combine_overlapping_points(acc);
+                g
+            } else {
+                let g0 = ga.clone().merge(gb.clone());
+                for l in &lines { let _ = g0.ray_collisions(l); }
+                ga.collide(gb, acc)
+            }
+        });
+        let g = match built { Guard::Done(g) => g, _ => { stats.excluded += 1; stats.count("excluded.coarse_weld_panicked_or_hung"); continue; } };
+        let cls = if weld { "welded_graph" } else { "coarsely_collided_graph" };
+        let detail_owner = format!("graph={}(A,B, accuracy {:?}) A={:?} B={:?}", cls, acc, sa.path, sb.path);
+        let detail = || detail_owner.clone();
+        stats.count(&format!("graph.{}", cls));
+        stats.case(&format!("{} {}", cls, detail()), true);
+        check_graph(&mut stats, &mut rng_w, &g, cls, 30, &detail);
+    }
     for it in 0..n {
         if it % 5 == 4 {
             let (a, b) = nearly_coincident_pair(&mut rng, it % 25 == 4);
